@@ -23,13 +23,14 @@
 
 struct QEvents {
     long poison_arith = 0, poison_cmp = 0, div0 = 0, inf_arith = 0, sqrt_bad = 0, to_double = 0;
+    long uninit_arith = 0, uninit_cmp = 0;   // a never-written (default-constructed) value used as an operand
     void reset() { *this = QEvents(); }
     long total() const { return poison_arith + poison_cmp + div0 + inf_arith + sqrt_bad; }
 };
 
 class Q {
 public:
-    enum Tag : unsigned char { FIN = 0, PINF = 1, NINF = 2, POISON = 3 };
+    enum Tag : unsigned char { FIN = 0, PINF = 1, NINF = 2, POISON = 3, UNINIT = 4 };  // UNINIT prints and behaves as poison
     mpq_class v;
     Tag tag;
 
@@ -37,7 +38,7 @@ public:
     // sqrt mode: k >= 0 : floor(sqrt(a*b*4^k))/(b*2^k);  -1 : largest power of two 2^e with 4^e <= x
     static int& sqrt_mode() { static int k = 32; return k; }
 
-    Q() : v(0), tag(POISON) {}
+    Q() : v(0), tag(UNINIT) {}
     Q(const Q&) = default;
     Q(Q&&) = default;
     Q& operator=(const Q&) = default;
@@ -52,7 +53,7 @@ public:
     Q(long double d) { set_double(static_cast<double>(d)); }
     Q(const mpq_class& q) : v(q), tag(FIN) { v.canonicalize(); }
 
-    static Q poison() { return Q(); }
+    static Q poison() { Q q; q.tag = POISON; return q; }
     static Q pinf() { Q q; q.tag = PINF; return q; }
     static Q ninf() { Q q; q.tag = NINF; return q; }
     static Q frac(long a, long b) { Q q(mpq_class(a, b)); return q; }
@@ -64,7 +65,7 @@ public:
     }
 
     bool is_fin() const { return tag == FIN; }
-    bool is_poison() const { return tag == POISON; }
+    bool is_poison() const { return tag == POISON || tag == UNINIT; }
 
     explicit operator double() const {
         ev().to_double++;
@@ -98,7 +99,8 @@ public:
 
     static bool bad_operands(const Q& a, const Q& b) {
         if (a.tag == FIN && b.tag == FIN) return false;
-        if (a.tag == POISON || b.tag == POISON) ev().poison_arith++;
+        if (a.tag == UNINIT || b.tag == UNINIT) ev().uninit_arith++;
+        else if (a.tag == POISON || b.tag == POISON) ev().poison_arith++;
         else ev().inf_arith++;
         return true;
     }
@@ -118,6 +120,7 @@ public:
             case FIN: r.v = -v; break;
             case PINF: r.tag = NINF; break;
             case NINF: r.tag = PINF; break;
+            case UNINIT: ev().uninit_arith++; r.tag = POISON; break;
             default: break;
         }
         return r;
@@ -126,6 +129,7 @@ public:
 
     // -1, 0, +1 ; 2 = unordered (poison involved)
     static int cmp(const Q& a, const Q& b) {
+        if (a.tag == UNINIT || b.tag == UNINIT) { ev().uninit_cmp++; return 2; }
         if (a.tag == POISON || b.tag == POISON) { ev().poison_cmp++; return 2; }
         if (a.tag == FIN && b.tag == FIN) return ::cmp(a.v, b.v) < 0 ? -1 : (::cmp(a.v, b.v) > 0 ? 1 : 0);
         auto rank = [](const Q& q) { return q.tag == NINF ? -1 : (q.tag == PINF ? 1 : 0); };
@@ -174,6 +178,7 @@ inline Q abs(const Q& a) {
 inline Q fabs(const Q& a) { return abs(a); }
 
 inline Q sqrt(const Q& x) {
+    if (x.tag == Q::UNINIT) { Q::ev().uninit_arith++; return Q::poison(); }
     if (x.tag != Q::FIN || sgn(x.v) < 0) { Q::ev().sqrt_bad++; return Q::poison(); }
     int k = Q::sqrt_mode();
     if (k >= 0) {
@@ -206,7 +211,7 @@ inline Q sqrt(const Q& x) {
 }
 
 inline bool isfinite(const Q& a) { return a.tag == Q::FIN; }
-inline bool isnan(const Q& a) { return a.tag == Q::POISON; }
+inline bool isnan(const Q& a) { return a.is_poison(); }
 inline bool isinf(const Q& a) { return a.tag == Q::PINF || a.tag == Q::NINF; }
 
 namespace std {
